@@ -526,7 +526,7 @@ DFGRgetrig(int32 file_id, uint16 ref, DFGRrig *rig)
                     DFdifree(GroupID);
                     HGOTO_ERROR(DFE_READERROR, FAIL);
                 }
-                if ((ntstring[2] != 8) || (ntstring[1] != DFNT_UCHAR)) {
+                if ((ntstring[2] != 8) || (ntstring[1] != DFNT_UCHAR && ntstring[1] != DFNT_UINT8)) {
                     DFdifree(GroupID);
                     HGOTO_ERROR(DFE_BADCALL, FAIL);
                 }
